@@ -92,7 +92,11 @@ def analyse(P):
                 consts = [x for x in (t[2][2], t[2][3]) if T.is_const(x)]
                 if consts:
                     p.masks = getattr(p, "masks", {})
-                    p.masks[consts[0][1]] = bool(v)
+                    if T.is_const(t[3]) and t[3][1] == 0:
+                        # (mv_bb & !CONST) == 0, i.e. `(mv_bb - CONST).none()`: the same subset test written as an empty difference
+                        p.masks[~consts[0][1] & 0xFFFFFFFFFFFFFFFF] = bool(v)
+                    else:
+                        p.masks[consts[0][1]] = bool(v)
                 continue
             if t[0] == "app" and "PartialEq" in t[1] and any(s_[0] == "app" and s_[1].endswith("enpassant_pos") for s_ in _sub(t)):
                 p.ep = bool(v)
